@@ -9,7 +9,7 @@ CONSTANTS
   t2 = t2
   t3 = t3
   MaxOps = 2
-  Kinds = {"lock","try2","try1"}
+  Kinds = {"lock","try1"}
   MaxIntr = 0
   FixEmpty = TRUE
   FixAdjust = TRUE
